@@ -98,6 +98,7 @@ func c12Case(seed int64, idx int) (packedCase, int) {
 	fmt.Fprintf(&sb, "func (r *%s) NS%d(k int) int {\n\tif r == nil {\n\t\treturn -k\n\t}\n\treturn k\n}\n\n", T, idx)
 	fmt.Fprintf(&sb, "type U%d struct {\n\tV%d int\n\tLink%d *U%d\n}\n\n", idx, idx, idx, idx)
 	fmt.Fprintf(&sb, "func (u *U%d) Depth%d() int {\n\tif u == nil {\n\t\treturn 0\n\t}\n\treturn 1 + u.Link%d.Depth%d()\n}\n\n", idx, idx, idx, idx)
+	fmt.Fprintf(&sb, "func lt%d(n int) string {\n\ttype %s struct {\n\t\tZq float64\n\t\tZs string\n\t}\n\tf := func(a int) int {\n\t\treturn a + 1\n\t}\n\ttype loc%d struct {\n\t\tW int\n\t}\n\tv := &%s{Zq: 3, Zs: \"s\"}\n\tw := &loc%d{W: f(n)}\n\tg := func() int {\n\t\treturn 2\n\t}\n\tu := &%s{Zq: 5}\n\treturn fmt.Sprint(v.Zq/2, v.Zs, w.W, u.Zq/float64(g()))\n}\n\n", idx, T, idx, T, idx, T)
 	alias := ""
 	if rng.Chance(1, 3) {
 		alias = fmt.Sprintf("A%d", idx)
@@ -129,6 +130,7 @@ func c12Case(seed int64, idx int) (packedCase, int) {
 	if hasNext {
 		fmt.Fprintf(&sb, "\tfmt.Println(\"nilnext\", c.Next%d.NS%d(5))\n", idx, idx)
 	}
+	fmt.Fprintf(&sb, "\tfmt.Println(\"lt\", lt%d(%d))\n", idx, idx%7)
 	if hasNext {
 		fmt.Fprintf(&sb, "\ta.Next%d = b\n\tb.Next%d = c\n", idx, idx)
 	}
@@ -455,7 +457,26 @@ func c12PkgCase(seed int64, idx int) core.RefCase {
 		fmt.Fprintf(&sb, "var K = %d\nvar Tag = \"%s-pkg\"\n\n", k*100, tag)
 		return sb.String()
 	}
-	files := map[string]string{root + "/" + p1 + "/" + name + ".go": lib("g1", rng.Range(1, 5))}
+	splitLib := func(dir, src string, files map[string]string) {
+		// methods and functions in a_ops.go, type declarations and variables in types.go (or all in one file)
+		if !rng.Bool() {
+			files[dir+"/"+name+".go"] = src
+			return
+		}
+		hdr := src[:strings.Index(src, "type P struct")]
+		var ops, types []string
+		for _, d := range strings.Split(src[len(hdr):], "\n\n") {
+			if strings.HasPrefix(d, "func ") {
+				ops = append(ops, d)
+			} else if strings.TrimSpace(d) != "" {
+				types = append(types, d)
+			}
+		}
+		files[dir+"/a_ops.go"] = hdr + strings.Join(ops, "\n\n") + "\n"
+		files[dir+"/types.go"] = "package " + name + "\n\n" + strings.Join(types, "\n\n") + "\n"
+	}
+	files := map[string]string{}
+	splitLib(root+"/"+p1, lib("g1", rng.Range(1, 5)), files)
 	var sb strings.Builder
 	sb.WriteString("package main\n\nimport (\n\t\"fmt\"\n")
 	a1, a2 := name, "gb"
@@ -466,7 +487,7 @@ func c12PkgCase(seed int64, idx int) core.RefCase {
 		fmt.Fprintf(&sb, "\t\"%s/%s\"\n", root, p1)
 	}
 	if two {
-		files[root+"/"+p2+"/"+name+".go"] = lib("g2", rng.Range(6, 9))
+		splitLib(root+"/"+p2, lib("g2", rng.Range(6, 9)), files)
 		fmt.Fprintf(&sb, "\tgb \"%s/%s\"\n", root, p2)
 	}
 	sb.WriteString(")\n\n")
@@ -600,6 +621,32 @@ func sum(t *T) int { return t.X*100 + t.Y }`); o.Failed() {
 		expect("calling inst.Add fetched by name", fmt.Sprintf("%v|%s", r4.Rets, r4.Err), "[2]|")
 		expect("inst", str(inst), fmt.Sprintf("&{X:2 Y:%d S:q L:[]}", y))
 		// an instance of a type defined from T
+		// the type declared again with many more methods: instances made before find every one of them
+		var decl strings.Builder
+		decl.WriteString("type T struct { X int; Y int; S string; L []int }\n")
+		nExtra := rng.Range(12, 20)
+		for i := 0; i < nExtra; i++ {
+			fmt.Fprintf(&decl, "func (t *T) Extra%d() int { return t.X*100 + %d }\n", i, i)
+		}
+		if o := m.Eval(nil, decl.String()); o.Failed() {
+			what = "declaring the type again fails: " + core.ErrFirstLine(o.Err) + o.Panic
+			return
+		}
+		for _, i := range []int{0, nExtra / 2, nExtra - 1} {
+			ex := a.GetAttr(fmt.Sprintf("Extra%d", i))
+			if ex.IsNil() {
+				what = fmt.Sprintf("method Extra%d (of %d added by a later declaration of the type) is not found on an instance made before", i, nExtra)
+				return
+			}
+			r6 := m.Func(ex, 1)
+			expect(fmt.Sprintf("Extra%d on an instance made before the type was declared again", i), fmt.Sprintf("%v|%s", r6.Rets, r6.Err), fmt.Sprintf("[%d]|", (x+n)*100+i))
+		}
+		if o := m.Eval(nil, fmt.Sprintf("func viaScript(t *T) int { return t.Extra%d() + t.Add(0) }", nExtra-1)); o.Failed() {
+			what = "a function using the added methods fails to compile: " + core.ErrFirstLine(o.Err)
+			return
+		}
+		r7 := m.Call("main.viaScript", 1, a)
+		expect("script call of an added method on an old instance", fmt.Sprintf("%v|%s", r7.Rets, r7.Err), fmt.Sprintf("[%d]|", (x+n)*100+nExtra-1+x+n))
 		// an instance of the alias type, made by a script, is an instance of T
 		if rets, err := m.VM.Call("main.mkD", 1); err == nil && len(rets) == 1 {
 			r5 := m.Func(rets[0].GetAttr("Add"), 1, I(1))
